@@ -116,7 +116,7 @@ fn main() {
             let v: serde_json::Value = serde_json::from_str(&txt).expect("replay file is not JSON");
             let h = v["harness"].as_str().unwrap_or("").to_string();
             println!("replaying {} (property {}, rule {})", h, v["property"], v["rule"]);
-            let violated = if h == "c17.fill" || h == "c15.fill" {
+            let violated = if h == "c17.fill" || h == "c15.fill" || h == "c19.fill" {
                 fill::replay(&v).unwrap_or(false)
             } else if h == "c15.t1" {
                 c15::replay_t1(&v)
